@@ -9,6 +9,7 @@ import json
 import logging
 import sqlite3
 import uuid
+import weakref
 from contextlib import asynccontextmanager
 from datetime import datetime, timezone
 from typing import Any, AsyncGenerator, Generic, Literal
@@ -44,6 +45,12 @@ def _utc_now() -> datetime:
     return datetime.now(timezone.utc)
 
 
+# One lock per (database, run), alive as long as some store object uses it.
+_RUN_LOCKS: weakref.WeakValueDictionary[tuple[str, str], asyncio.Lock] = (
+    weakref.WeakValueDictionary()
+)
+
+
 class SqliteStateStore(Generic[MODEL_T]):
     """Sqlite-backed StateStore implementation.
 
@@ -73,8 +80,18 @@ class SqliteStateStore(Generic[MODEL_T]):
 
     @functools.cached_property
     def _lock(self) -> asyncio.Lock:
-        """Lazy lock initialization for Python 3.14+ compatibility."""
-        return asyncio.Lock()
+        """Lazy lock initialization for Python 3.14+ compatibility.
+
+        The lock is shared by every store object of the same database and run:
+        the server runtime creates one store per step invocation, and concurrent
+        steps of a run must exclude each other's ``edit_state`` blocks.
+        """
+        key = (self._db_path, self._run_id)
+        lock = _RUN_LOCKS.get(key)
+        if lock is None:
+            lock = asyncio.Lock()
+            _RUN_LOCKS[key] = lock
+        return lock
 
     def _connect(self) -> sqlite3.Connection:
         if self._shared_conn is not None:
